@@ -91,9 +91,13 @@ def run(tier, seed, rng):
             gm = helper.get_grad().detach().clone()
             a_f = helper.get_a_factor(x.clone()); g_f = helper.get_g_factor(got['go'].clone())
             # position revealing set/get round trip
-            M = torch.arange(gm.numel(), dtype=torch.float64).reshape(gm.shape) + 1
+            # (thirds: not representable in any narrower float type - the round trip must not pass through one)
+            M = (torch.arange(gm.numel(), dtype=torch.float64).reshape(gm.shape) + 1) / 3
             helper.set_grad(M.clone())
             back = helper.get_grad().detach().clone()
+            if gm.dtype != m.weight.dtype or back.dtype != m.weight.dtype or m.weight.grad.dtype != m.weight.dtype:
+                failures.append(Failure(what=f'conv get_grad() has dtype {gm.dtype} / {back.dtype}, the parameters {m.weight.dtype}', case={'kind': 'conv', 'geom': g, 'bias': hb, 'seed': sd},
+                                        oracle_rejects=True, correspondence=CORRESPONDENCES[0], theorems=THEOREMS, oracle='the combined gradient has the dtype of the parameters'))
         except Exception as e:  # noqa: BLE001
             failures.append(Failure(what=f'helper raised {type(e).__name__}: {e}'[:300], case={'kind': 'conv', 'geom': g, 'bias': hb, 'seed': sd},
                                     oracle_rejects=True, correspondence=CORRESPONDENCES[0], theorems=THEOREMS,
@@ -172,6 +176,18 @@ def run(tier, seed, rng):
         out = m(x.clone().requires_grad_(True))
         (out * torch.randint(-3, 4, out.shape, generator=gen).double()).sum().backward()
         gm = helper.get_grad().detach().clone()
+        # set/get round trip with values no narrower float type represents, and the dtype of the combined gradient
+        Ml = (torch.arange(gm.numel(), dtype=torch.float64).reshape(gm.shape) + 1) / 3
+        wsave, bsave = m.weight.grad.clone(), (m.bias.grad.clone() if hb else None)
+        helper.set_grad(Ml.clone())
+        backl = helper.get_grad().detach().clone()
+        m.weight.grad = wsave
+        if hb:
+            m.bias.grad = bsave
+        if gm.dtype != m.weight.dtype or backl.dtype != m.weight.dtype or not torch.equal(backl, Ml):
+            failures.append(Failure(what=f'linear set_grad/get_grad round trip is not exact or changes dtype ({gm.dtype}, {backl.dtype}; max diff {float((backl.double() - Ml).abs().max()):.2e})',
+                                    case={'kind': 'linear', 'nin': nin, 'nout': nout, 'lead': lead, 'bias': hb, 'seed': sd}, oracle_rejects=True,
+                                    correspondence=CORRESPONDENCES[1], theorems=THEOREMS, oracle='set_grad(M); get_grad() == M, in the dtype of the parameters'))
         rows = x.numel() // nin
         a2, g2 = x.reshape(rows, nin), got['go'].reshape(rows, nout)
         ora = g2.t() @ (torch.cat([a2, torch.ones(rows, 1, dtype=torch.float64)], 1) if hb else a2)
